@@ -501,9 +501,9 @@ def run(rep, tier, seed):
     ]
     import beartype  # noqa: F401  (imported, unused: children fork from here)
     global POOL, SAMPLE, RSEED
-    # thorough: every covering path of every group up to 5000 paths per group (the three-option group
+    # thorough: every covering path of every group up to 1500 paths per group (the three-option group
     # violation_type x violation_param_type x violation_return_type has > 100 000 edges: sampled)
-    SAMPLE, RSEED = (160 if tier == "quick" else 5000), seed
+    SAMPLE, RSEED = (160 if tier == "quick" else 1500), seed
     with scratch("c17-") as d, ForkPool(16) as POOL:
         _mutant(rep, d)
         groups = [(["is_debug"], 3), (["is_color", "is_random"], 2), (["violation_type", "violation_door_type"], 2),
